@@ -108,4 +108,6 @@ ReadsSeeWrites == \A i \in 1..Len(hist) : hist[i].act = "read" =>
 \* only writes change sectors, and only the sectors they name
 OnlyWritesWrite == [][sect' # sect => hist'[Len(hist')].act = "write"]_vars
 MediaAccessSpinsUp == [][(hist' # hist /\ hist'[Len(hist')].act \in {"read", "write"}) => ~standby']_vars
+\* the state without its history (see Reservations!CoreView)
+CoreView == <<sect, wcache, standby>>
 =============================================================================
